@@ -107,6 +107,38 @@ func (c *Cmd) run(combined bool) ([]byte, error) {
 		}
 	}
 	if ExecMode == "async" {
+		// "mkfifo PATH" / "rm PATH" are file-system mutations: performed through the FS seam as one
+		// synchronous visible operation instead of as a child process whose exit would only be
+		// observed at the next quiescent state
+		if c.name == "bash" && len(c.args) == 2 && c.args[0] == "-c" {
+			f := strings.Fields(c.args[1])
+			if len(f) == 2 && f[0] == "mkfifo" {
+				p := f[1]
+				if c.Dir != "" && !filepath.IsAbs(p) {
+					p = filepath.Join(c.Dir, p)
+				}
+				t := fsOp("mkfifo", mut(p))
+				err := syscall.Mkfifo(p, 0644)
+				fsDone(t, "mkfifo", fmt.Sprint(p, err == nil), true, []string{p}, err)
+				if err != nil {
+					err = RealExitError(1)
+				}
+				c.setState(err)
+				return nil, err
+			}
+			if len(f) == 2 && f[0] == "rm" {
+				p := f[1]
+				if c.Dir != "" && !filepath.IsAbs(p) {
+					p = filepath.Join(c.Dir, p)
+				}
+				err := FSRemove(p)
+				if err != nil {
+					err = RealExitError(1)
+				}
+				c.setState(err)
+				return nil, err
+			}
+		}
 		return c.runAsync(combined)
 	}
 	// real, synchronous: one visible operation that may touch anything below cwd
@@ -164,6 +196,13 @@ func (c *Cmd) runAsync(combined bool) ([]byte, error) {
 		return nil, err
 	}
 	s.children = append(s.children, cp)
+	s.liveChildren++ // "executing" from the caller's point of view: started, exit not yet returned to it
+	if os.Getenv("VS_DEBUG_CHILD") != "" {
+		fmt.Fprintf(os.Stderr, "CHILD+ live=%d %s\n", s.liveChildren, cp.desc)
+	}
+	if s.liveChildren > s.maxLiveChildren {
+		s.maxLiveChildren = s.liveChildren
+	}
 	go func() {
 		e := cp.cmd.Wait()
 		cp.mu.Lock()
@@ -174,6 +213,10 @@ func (c *Cmd) runAsync(combined bool) ([]byte, error) {
 	t.pending = &Op{kind: opChild, child: cp, desc: cp.desc}
 	s.reschedule(t, false)
 	t.log("child", cp.desc)
+	s.liveChildren--
+	if os.Getenv("VS_DEBUG_CHILD") != "" {
+		fmt.Fprintf(os.Stderr, "CHILD- live=%d %s\n", s.liveChildren, cp.desc)
+	}
 	if CrashMode {
 		observeDisk("exec " + cp.desc)
 	}
@@ -358,3 +401,7 @@ func RealExitError(code int) error {
 	realErrs[code] = err
 	return err
 }
+
+// MaxLiveChildren: the largest number of child processes that were started and whose exit had
+// not yet been returned to their caller, at any instant of this execution (async mode).
+func (s *Sched) MaxLiveChildren() int { return s.maxLiveChildren }
